@@ -19,7 +19,6 @@ CONTRACTED = ['phylib/io/merge.py::_load_multiple_spike_times', 'phylib/io/merge
               'phylib/io/merge.py::Merger.merge']
 
 TSV_FILES = {'cluster_KSLabel.tsv': 'KSLabel', 'cluster_Amplitude.tsv': 'Amplitude', 'cluster_ContamPct.tsv': 'ContamPct'}
-SPIKE_FILES = {'spike_times.npy', 'spike_templates.npy', 'spike_clusters.npy', 'amplitudes.npy'} | set(TSV_FILES)
 
 
 # ----------------------------------------------------------------------------------------------------------
@@ -71,9 +70,9 @@ def probe_defaults(p, spec):
     return s
 
 
-def write_probe(d, p, spec, only=None):
-    """Write probe number p described by spec into directory d; returns the filled spec plus truth arrays.
-    only: None (the complete directory) or the set of file names to write (a writer that reads only those)."""
+def write_probe(d, p, spec):
+    """Write probe number p described by spec into directory d (always a complete dataset directory, so that a writer is
+    free to read any file of it); returns the filled spec plus truth arrays."""
     s = probe_defaults(p, spec)
     os.makedirs(d, exist_ok=True)
 
@@ -81,8 +80,7 @@ def write_probe(d, p, spec, only=None):
         return a.reshape((-1, 1)) if s['colvec'] else a
 
     def save(name, a):
-        if only is None or name in only:
-            np.save(os.path.join(d, name), a)
+        np.save(os.path.join(d, name), a)
     save('spike_times.npy', vec(np.asarray(s['times']).astype(s['times_dtype'])))
     save('spike_templates.npy', vec(np.asarray(s['st']).astype(s['ids_dtype'])))
     save('spike_clusters.npy', vec(np.asarray(s['sc']).astype(s['ids_dtype'])))
@@ -104,17 +102,14 @@ def write_probe(d, p, spec, only=None):
         truth['similar_templates.npy'] = matrix_values(p, s['nt'], 0.125)
         save('similar_templates.npy', truth['similar_templates.npy'])
     for fn, rows in s['tsv'].items():
-        if only is not None and fn not in only:
-            continue
         with open(os.path.join(d, fn), 'w', newline='') as f:
             w = csv.writer(f, delimiter='\t')
             w.writerow(['cluster_id', TSV_FILES[fn]])
             for k, v in rows:
                 w.writerow([k, v])
-    if only is None or 'params.py' in only:
-        with open(os.path.join(d, 'params.py'), 'w') as f:
-            f.write('dat_path = []\nn_channels_dat = %d\ndtype = %r\noffset = 0\nsample_rate = %r\nhp_filtered = False\n'
-                    % (s['ncd'], 'int16', float(s['sr'])))
+    with open(os.path.join(d, 'params.py'), 'w') as f:
+        f.write('dat_path = []\nn_channels_dat = %d\ndtype = %r\noffset = 0\nsample_rate = %r\nhp_filtered = False\n'
+                % (s['ncd'], 'int16', float(s['sr'])))
     s['truth'] = truth
     return s
 
@@ -194,8 +189,7 @@ def case_merge(inp):
     specs = inp['probes']
     with tempdir() as root:
         dirs = [os.path.join(root, 'probe%d' % p) for p in range(len(specs))]
-        only = None if inp.get('e2e') else SPIKE_FILES
-        S = [write_probe(d, p, s, only) for p, (d, s) in enumerate(zip(dirs, specs))]
+        S = [write_probe(d, p, s) for p, (d, s) in enumerate(zip(dirs, specs))]
         out = os.path.join(root, 'merged')
         before = [dir_digest(d) for d in dirs]
         m = M.Merger(dirs, out)
